@@ -316,6 +316,9 @@ func (f *frame) localAt(name string, env *Env) (TV, bool) {
 				continue
 			}
 			if o := d.Object(); o != nil && o.Name() == name {
+				if v, isVar := o.(*types.Var); !isVar || v.IsField() {
+					continue
+				}
 				if d.IsAddr {
 					if pt, isP := d.X.Type().Underlying().(*types.Pointer); !isP || !types.Identical(o.Type(), pt.Elem()) {
 						continue
